@@ -37,6 +37,10 @@ pub struct Case {
     pub volume: f64,
     /// the vocoder's log-gain flag: it belongs to the LSP family and must not matter here
     pub log_gain_flag: bool,
+    /// Some(alpha'): immediately before the measurement another vocoder on the same thread renders
+    /// the same cepstrum with another alpha (history between objects)
+    #[serde(default)]
+    pub decoy_alpha: Option<f64>,
 }
 
 pub const RATES: &[usize] = &[16000, 8000, 22050, 44100, 48000, 96000];
@@ -137,10 +141,13 @@ impl Prop for MlsaSpectrum {
         let cepstrum = gen_cepstrum(t, len, alpha, target_shape);
         let gain_shift = if t.chance(0.5) { t.uniform(-6.0, 6.0) } else { t.uniform(-35.0, 6.0) };
         let volume = if t.chance(0.6) { 1.0 } else { t.log_uniform(0.05, 20.0) };
-        Case { rate, alpha, target_shape, cepstrum, gain_shift, volume, log_gain_flag: t.chance(0.2) }
+        Case { rate, alpha, target_shape, cepstrum, gain_shift, volume, log_gain_flag: t.chance(0.2), decoy_alpha: if t.chance(0.25) { Some(gen_alpha(t)) } else { None } }
     }
     fn check(&self, c: &Case) -> Result<Report, Failure> {
         let tier_k = if std::env::var("VERIF_TIER").ok().as_deref() == Some("thorough") { 257 } else { 65 };
+        if let Some(a) = c.decoy_alpha {
+            let _ = measure_pulse(&c.cepstrum, 0, false, c.rate, a, 0.0, 1.0);
+        }
         let mut m = measure_pulse(&c.cepstrum, 0, c.log_gain_flag, c.rate, c.alpha, 0.0, c.volume);
         for v in m.frame1.iter_mut().chain(m.frame2.iter_mut()) {
             *v /= c.volume;
